@@ -95,6 +95,16 @@ func (c *Conn) PrepareContext(ctx context.Context, query string) (driver.Stmt, e
 	}, nil
 }
 
+// CheckNamedValue leaves the check (and conversion) of a statement argument to the target connection when it has
+// rules of its own, as database/sql would if it talked to that connection directly: go-sql-driver/mysql, for one,
+// accepts a uint64 with its high bit set, which database/sql's default rules refuse.
+func (c *Conn) CheckNamedValue(nv *driver.NamedValue) error {
+	if checker, ok := c.targetConn.(driver.NamedValueChecker); ok {
+		return checker.CheckNamedValue(nv)
+	}
+	return driver.ErrSkip
+}
+
 // Exec warning: if you want to use global transaction, please use ExecContext function
 func (c *Conn) Exec(query string, args []driver.Value) (driver.Result, error) {
 	conn, ok := c.targetConn.(driver.Execer)
